@@ -209,7 +209,7 @@ func TestC05Corpus(t *testing.T) {
 
 		r.Count("files.total", 1)
 
-		env := Env{Arena: arena, Name: filepath.Base(rel)}
+		env := Env{Arena: arena, Name: filepath.Base(rel), Concurrent: startsGoroutines(src)}
 
 		// baseline twice for test files
 		if runner == RunTest {
